@@ -34,6 +34,8 @@ SHIM_CONTRACTS = {
     "1e-100 / nextafter(0,1) regularisers": "taken as 0 (their effect is <= 1e-100 absolute)",
     "lsmr": "contract: returns the exact minimum-norm least-squares solution (computed in rationals); convergence of scipy's iterative lsmr is outside the claim",
     "np.allclose": "evaluated on the concrete (rational) operands",
+    "np.histogramdd": "definition: cell = sum of the weights of the records that fall in it (only when the weights are symbolic)",
+    "np.log(concrete)": "log of a concrete positive number stays exact in log space",
     "eigsh": "contract: largest eigenvalue of the symmetric operator, computed densely (deterministic), rounded to 12 digits",
 }
 
@@ -84,7 +86,8 @@ def sym_logsumexp(a, axis=None, b=None, keepdims=False, return_sign=False):
     return out
 
 
-LIFT_ALL = {"on": True}   # logsumexp of pure-float object arrays still goes symbolic (exact log(8) etc.)
+LIFT_ALL = {"on": True}
+LOG_EXACT = {"on": True}   # logsumexp of pure-float object arrays still goes symbolic (exact log(8) etc.)
 
 
 def sym_softmax(x, axis=None):
@@ -183,6 +186,10 @@ class NPProxy(types.ModuleType):
             a = self.array(a)
         if isinstance(a, Sym):
             return a.log()
+        if LOG_EXACT["on"] and isinstance(a, (int, float, _np.integer, _np.floating)) and not isinstance(a, bool) and a > 0 and out is None:
+            # log of a concrete positive number is kept exact in log space (log(3.0) as the float 1.0986... would re-enter as a
+            # rational whose exp is not 3)
+            return SL(Fraction(float(a)).limit_denominator(10**12), {}, None, "p")
         if isinstance(a, _np.ndarray) and a.dtype == object:
             res = _elementwise(_log1, a)
             if out is not None:
@@ -213,6 +220,20 @@ class NPProxy(types.ModuleType):
 
     def isscalar(self, x):
         return isinstance(x, Sym) or _np.isscalar(x)
+
+    def histogramdd(self, sample, bins=10, weights=None, **kw):
+        """definition of the weighted contingency table: cell = sum of the weights of the records in it (integer bin edges 0..n)"""
+        if weights is None or not (isinstance(weights, _np.ndarray) and weights.dtype == object):
+            return _np.histogramdd(sample, bins, weights=weights, **kw)
+        shape = tuple(len(b) - 1 for b in bins)
+        H = _np.empty(shape, dtype=object)
+        H[...] = 0.0
+        sample = _np.asarray(sample)
+        for r in range(sample.shape[0]):
+            idx = tuple(int(v) for v in sample[r])
+            if all(0 <= i < n for i, n in zip(idx, shape)):
+                H[idx] = H[idx] + weights[r]
+        return H, [_np.asarray(list(b)) for b in bins]
 
     @property
     def random(self):
@@ -556,6 +577,8 @@ def install_mbi_shims():
     shadow(mbi.region_graph, np=NP)
     shadow(mbi.local_inference, np=NP, float=sym_float)
     shadow(mbi.public_inference, np=NP, float=sym_float, logsumexp=sym_logsumexp)
+    import mbi.dataset
+    shadow(mbi.dataset, np=NP)
     return mbi
 
 
